@@ -1195,6 +1195,9 @@ func TestVerif_C13(t *testing.T) {
 		if c.Idx%4 == 0 {
 			c13InflightGratuitous(c)
 		}
+		if c.Idx%50 == 7 {
+			c13NDPProbe(c)
+		}
 
 		// evidence
 		var key strings.Builder
